@@ -2,7 +2,7 @@ import Emerge.Scanner
 /-
   Model of the emitted lexer's `NextToken` (`templates/lexer.go.tmpl`, after the `fix:` commits):
 
-    curr, n := 0, 0
+    curr, n := 0, 0                                              (scanToken)
     loop: r, err := in.Next()
           err: EOF && n > 0 → evalToken(curr); otherwise return err
           next := advanceDFA(curr, r)
@@ -11,7 +11,8 @@ import Emerge.Scanner
                      otherwise → evalToken(errorState)                       (lexical error naming the character)
              n > 0 : in.Retract(); evalToken(curr)
           curr, n = next, n+1
-    evalToken: evalDFA(state) → ERR ⇒ error; WS/EOL/COMMENT ⇒ NextToken(); otherwise the token.
+    evalToken: evalDFA(state) → invalid final state (second result) ⇒ error; a terminal named WS/EOL/COMMENT ⇒ skipped,
+               NextToken scans on (a loop over scanToken, the loop above); otherwise the token - a terminal named ERR included.
 
   over the rune stream the (repaired) reader delivers. Core Lean only.
 -/
